@@ -399,15 +399,25 @@ def application_table(w):
     """apply_procedure on a user procedure (lambda FORMALS (define d D) B1 B2) closed over CENV, with k arguments.
     rows: (formals kind, k) -> dict"""
     rows = []
-    for kind, fixed, rest in (("fixed2", ["a", "b"], None), ("rest", ["a"], "r"), ("thunk", [], None)):
-        for k in range(0, 4):
+    for kind, fixed, rest in (("fixed2", ["a", "b"], None), ("rest", ["a"], "r"), ("thunk", [], None), ("fixed2+procedure-definition", ["a", "b"], None)):
+        for k in (range(0, 4) if "+" not in kind else (2,)):
             cenv = Frame(None, "closure-env")
             caller = Frame(None, "caller-env")
             d_marker, b1, b2 = w.sym("D"), w.sym("B1"), w.sym("B2")
-            sp = w.scheme_procedure(w.formals(fixed, rest), [("d", d_marker)], [b1, b2])
+            defs_ = [("d", d_marker)]
+            if "+" in kind:
+                # an internal definition whose value is a procedure (closed over the body frame): it stays bound in that frame after
+                # the body has produced its value — closures made in the body may outlive the call and look it up by name
+                defs_ = [("d", d_marker), ("helper", w.lam(w.scheme_procedure(w.formals(["y"]), [], [w.sym("H1")])))]
+            sp = w.scheme_procedure(w.formals(fixed, rest), defs_, [b1, b2])
             proc = w.user(sp, cenv)
             args = [Tok("arg", "V%d" % i) for i in range(1, k + 1)]
             r = Run(w, follow=[w.asp.name])
+            if "+" in kind:
+                # (real values throughout: code that looks at what the frame holds can be followed)
+                num_ = dict((n_, i_) for i_, n_ in w.fb.variants("values::Number"))
+                args = [w.named(w.val, "Boolean", [True]), w.named(w.val, "Number", [w.named(num_, "Integer", [7])])]
+                r = Run(w, follow=[w.asp.name], answers={"D": ok(w.named(w.val, "Boolean", [False]))})
             try:
                 res = r.run(w.ap, [proc, list(args), caller])
             except (absint.Stuck, absint.Loop) as e:
@@ -424,6 +434,8 @@ def application_table(w):
                  "order": [(e[0], e[1] if e[0] in ("eval", "tail") else (e[2] if e[0] == "define" else None)) for e in r.events
                            if e[0] in ("eval", "tail", "define", "new_child")],
                  "args": args, "panics": [e for e in r.mc.events if e[0] == "panic"], "visited": set(r.mc.visited)}
+            if "+" in kind and frames:
+                d["bound_after"] = sorted(str(v_[0]) for v_ in frames[0][1].defs.d.values())
             rows.append(((kind, k), d))
     return rows
 
@@ -432,10 +444,14 @@ def trampoline_table(w):
     """apply_procedure where the first application ends in a pending tail call to (P2 args2): the next turn must apply P2 to
     args2 with P2's own arity checked again; nothing of turn 1 is reused."""
     rows = []
-    for second, k2 in (("user-ok", 1), ("user-arity", 2), ("builtin", 1), ("self-arity", 2), ("same-code-other-env", 1)):
+    for second, k2 in (("user-ok", 1), ("user-arity", 2), ("builtin", 1), ("self-arity", 2), ("same-code-other-env", 1), ("thunk-ok", 0)):
         cenv1, cenv2, caller = Frame(None, "closure-env-1"), Frame(None, "closure-env-2"), Frame(None, "caller-env")
         sp1 = w.scheme_procedure(w.formals(["a"]), [], [w.sym("B1")])
         sp2 = w.scheme_procedure(w.formals(["x"]), [], [w.sym("B2")])
+        if second == "thunk-ok":
+            # the tail-called procedure has no parameters and no definitions (a named thunk): it still runs under ITS closure
+            # environment, in a frame of its own — not in the frame the tail call was made from
+            sp2 = w.scheme_procedure(w.formals([]), [], [w.sym("B2")])
         p1 = w.user(sp1, cenv1)
         if second == "builtin":
             params2 = w.formals(["x"])
@@ -972,6 +988,16 @@ def rule_application(ctx, rule, aspects):
         res = d["result"]
         accepted = not _err_kind(res, "ArgumentMissMatch") and isinstance(res, Enum) and getattr(res, "name", None) == "Ok"
         checks = []
+        if "+" in kind:
+            # the row with an internal procedure definition: only what the body frame holds after the body produced its value
+            if "bind" not in aspects:
+                continue
+            ba = d.get("bound_after")
+            v.row(key, d, [(accepted and ba is not None and {"a", "b", "d", "helper"} <= set(ba),
+                            "after the body of a procedure with internal definitions has produced its value, its frame binds %s; expected "
+                            "the parameters and every internal definition still bound (a closure made in the body that outlives the call "
+                            "looks internal procedures up by name in that frame)" % (ba,))])
+            continue
         if "arity" in aspects:
             checks.append((accepted == d["accepts"], "a procedure with %s parameters applied to %d argument(s) is %s" % (
                 {"fixed2": "two fixed", "rest": "one fixed and a rest", "thunk": "no"}[kind], k,
@@ -1430,10 +1456,11 @@ def rule_trampoline(ctx, rule, aspects):
         if "rebind" in aspects:
             checks.append((first_ok, "the first turn does not apply the initial procedure"))
             checks.append((len(etc) == 1, "the pending tail call is evaluated %d times (expected once)" % len(etc)))
-            if second in ("user-ok", "same-code-other-env"):
+            if second in ("user-ok", "same-code-other-env", "thunk-ok"):
                 checks.append((len(au) == 2 and au[1][1] is d["sp2"][0] and au[1][2] is d["sp2"][1] and au[1][3] is d["sp2"][2],
                                "the second turn of the trampoline does not run the procedure the tail call evaluated to"))
-                checks.append((len(au) == 2 and isinstance(au[1][5], list) and len(au[1][5]) == 1 and au[1][5][0] is d["args2"][0],
+                checks.append((len(au) == 2 and isinstance(au[1][5], list) and len(au[1][5]) == len(d["args2"]) and
+                               all(x is y for x, y in zip(au[1][5], d["args2"])),
                                "the second turn does not use the arguments the tail call evaluated to"))
                 checks.append((len(au) == 2 and env_of(au[1][4], d["cenv2"]),
                                "the second turn runs in an environment other than the one captured by the tail-called closure"))
